@@ -134,6 +134,10 @@ def build(vc, case, carriers, variant):
                 del deps[names[-1]]
             elif p == "UnknownName":
                 deps["bogus"] = vc.DependenceFunction(_const)
+            elif p == "DepUnknownParam":      # 'd' is not a parameter of _const(x, a): the coupling would be dropped
+                deps[names[0]] = vc.DependenceFunction(_const, d=vc.DependenceFunction(_const))
+            elif p == "DepMisspeltOption":    # 'bound' instead of 'bounds'
+                deps[names[0]] = vc.DependenceFunction(_const, bound=[(0, None)])
             desc["parameters"] = deps
         if dm["extra"]:
             desc["interval"] = 3
@@ -167,7 +171,9 @@ def fit_args(case, data):
     else:
         fd = [ok(i + 1) for i in range(n)]
         fd[pos] = {"MissingMethod": {"weights": None}, "UnknownMethod": {"method": "magic"},
-                   "UnknownWeights": {"method": "wlsq", "weights": "quartic"}}[fk]
+                   "UnknownWeights": {"method": "wlsq", "weights": "quartic"},
+                   "UnknownKey": {"method": "mle", "weight": "quadratic"},
+                   "UnknownKeyPlus": {"method": "mle", "weights": None, "wieghts": "quadratic"}}[fk]
     return d, fd
 
 
@@ -396,6 +402,8 @@ def run(ctx):
     ctx.model_check("Validation", "MC_Validation_mut_lateref.cfg", expect_violation="RejectedNotComputed", workers=4)
     ctx.model_check("Validation", "MC_Validation_mut_params.cfg", expect_violation="RejectedNotComputed", workers=4)
     ctx.model_check("Validation", "MC_Validation_mut_falsy.cfg", expect_violation="RejectedNotComputed", workers=4)
+    ctx.model_check("Validation", "MC_Validation_mut_depkw.cfg", expect_violation="RejectedNotComputed", workers=4)
+    ctx.model_check("Validation", "MC_Validation_mut_fitkey.cfg", expect_violation="RejectedNotComputed", workers=4)
     # ---- R
     cases = ctx.generate("Validation", ctx.pick("Gen_Validation_quick.cfg", "Gen_Validation_thorough.cfg"))
     cases.sort(key=case_key)
